@@ -378,3 +378,43 @@ func (w *gmWorld) tradeAmount(p *gmPool, denom string) sdkmath.Int {
 func gmDescribe(msg sdk.Msg) string { return fmt.Sprintf("%T %v", msg, msg) }
 
 var _ = banktypes.ModuleName
+
+
+// governance applies, now and then, the parameter changes a passed proposal or a taker-fee admin makes while the
+// chain runs: the reduced-fee whitelist gains, changes or loses its member, a pair's taker fee is set to another
+// value — including the default value, which removes the override — or the default itself changes.
+func (w *gmWorld) governance() {
+	r := w.r
+	ctx := w.ch.Ctx
+	pk := w.ch.App.PoolManagerKeeper
+	switch r.Intn(4) {
+	case 0:
+		p := pk.GetParams(ctx)
+		if w.whitelisted >= 0 && r.Bool() {
+			w.c.Logf("governance: actor %d leaves the reduced-fee whitelist", w.whitelisted)
+			w.whitelisted = -1
+			p.TakerFeeParams.ReducedFeeWhitelist = nil
+		} else {
+			w.whitelisted = r.Intn(len(w.actors))
+			w.c.Logf("governance: reduced-fee whitelist = actor %d", w.whitelisted)
+			p.TakerFeeParams.ReducedFeeWhitelist = []string{w.actors[w.whitelisted].Addr.String()}
+		}
+		pk.SetParams(ctx, p)
+	case 1, 2:
+		i, j := r.Intn(len(gmDenoms)), r.Intn(len(gmDenoms))
+		if i == j {
+			return
+		}
+		fee := osmomath.MustNewDecFromStr(gmTakerFees[r.Intn(len(gmTakerFees))])
+		if r.Intn(3) == 0 {
+			fee = pk.GetParams(ctx).TakerFeeParams.DefaultTakerFee // back to the default: the override is removed
+		}
+		w.c.Logf("governance: taker fee %s -> %s = %s", gmDenoms[i], gmDenoms[j], fee)
+		pk.SetDenomPairTakerFee(ctx, gmDenoms[i], gmDenoms[j], fee)
+	default:
+		p := pk.GetParams(ctx)
+		p.TakerFeeParams.DefaultTakerFee = osmomath.MustNewDecFromStr(gmTakerFees[r.Intn(len(gmTakerFees))])
+		w.c.Logf("governance: default taker fee = %s", p.TakerFeeParams.DefaultTakerFee)
+		pk.SetParams(ctx, p)
+	}
+}
